@@ -182,7 +182,7 @@ def conclude(mod, prop, tier, seed, results, problems, wall, nshards):
     }
     # evidence/ is only ever written from runs against /repo itself; runs pointed at a scratch copy (VERIF_REPO,
     # used to evaluate deliberately broken trees) write under .run/ and leave the committed evidence alone
-    evdir = os.path.join(env.VERIF, "evidence") if os.path.realpath(env.REPO) == "/repo" else os.path.join(env.VERIF, ".run", "scratch-evidence")
+    evdir = os.path.join(env.VERIF, "evidence") if (os.path.realpath(env.REPO) == "/repo" and not os.environ.get("VERIF_NO_EVIDENCE")) else os.path.join(env.VERIF, ".run", "scratch-evidence")
     os.makedirs(evdir, exist_ok=True)
     with open(os.path.join(evdir, f"{prop}.json"), "w") as f:
         json.dump(ev, f, indent=1, sort_keys=True)
